@@ -33,9 +33,9 @@ func (c12) MinEvals(string) int    { return 1000 }
 
 func (c12) NumCases(tier string, seed int64) int {
 	if tier == "thorough" {
-		return 900
+		return 4000
 	}
-	return 120
+	return 480
 }
 
 const c12Yang = `
